@@ -85,9 +85,14 @@ fn vf_result_show_is_what_the_run_printed() {
         let mut perm = std::fs::metadata(&p).unwrap().permissions(); perm.set_mode(0o755); std::fs::set_permissions(&p, perm).unwrap();
     }
     std::fs::write(root.join(".gitignore"), "monorail-out/\n").unwrap();
+    // many more targets, so that a result document can be hundreds of kilobytes long
+    let many: Vec<String> = (0..120).map(|i| format!("m{:03}", i)).collect();
+    for m in &many { std::fs::create_dir_all(root.join(m)).unwrap(); std::fs::write(root.join(m).join("f.txt"), m).unwrap(); }
+    let more: String = many.iter().map(|m| format!(",{{\"path\":\"{}\"}}", m)).collect();
+    let wide: Vec<String> = (0..40).map(|i| format!("undefined-command-{:02}", i)).collect();
     let (lp, kp) = (free_port(), free_port());
     let cfg = root.join("Monorail.json");
-    std::fs::write(&cfg, format!("{{\"targets\":[{{\"path\":\"t1\"}},{{\"path\":\"t2\"}}],\"server\":{{\"log\":{{\"port\":{}}},\"lock\":{{\"port\":{}}}}}}}", lp, if kp == lp { kp + 1 } else { kp })).unwrap();
+    std::fs::write(&cfg, format!("{{\"targets\":[{{\"path\":\"t1\"}},{{\"path\":\"t2\"}}{more}],\"server\":{{\"log\":{{\"port\":{}}},\"lock\":{{\"port\":{}}}}}}}", lp, if kp == lp { kp + 1 } else { kp })).unwrap();
     git(&["add", "-A"]); git(&["commit", "-q", "-m", "c1"]);
     let mono = |args: &[&str]| Command::new(BIN).current_dir(root).arg("-f").arg(&cfg).args(args).output().unwrap();
     let (mut checked, mut bad) = (0u64, 0u64);
@@ -95,6 +100,7 @@ fn vf_result_show_is_what_the_run_printed() {
         ("a run of one succeeding target", vec!["run", "-c", "build", "-t", "t1"], false),
         ("a failing command followed by a command that is skipped", vec!["run", "-c", "build", "lint", "-t", "t2"], false),
         ("commands that no target defines", vec!["run", "-c", "nosuch", "-t", "t1", "t2"], false),
+        ("a long result document: forty commands that none of 120 targets defines", { let mut a = vec!["run", "-c"]; a.extend(wide.iter().map(|x| x.as_str())); a.push("-t"); a.extend(many.iter().map(|x| x.as_str())); a }, false),
         ("a run with nothing to do: a checkpoint exists and nothing has changed since", vec!["run", "-c", "build"], true),
     ];
     for (what, args, needs_cp) in shapes {
